@@ -525,8 +525,12 @@ func (x *Exec) run() (err error) {
 	x.findLoops()
 	st := &State{cells: map[*ssa.Alloc]*Val{}, heap: map[string]*Term{}, ghost: map[string]*Val{}, iters: map[*ssa.Range]*iterData{}, reach: tTrue}
 	// parameters
-	for _, p := range fn.Params {
-		v := x.havocParam(p.Type(), p.Name())
+	for pi, p := range fn.Params {
+		pname := p.Name()
+		if pname == "_" || pname == "" {
+			pname = fmt.Sprintf("blank%d", pi) // blank parameters must not share one symbol
+		}
+		v := x.havocParam(p.Type(), pname)
 		x.regs[p] = v
 		x.params[p.Name()] = v
 		x.paramTyp[p.Name()] = p.Type()
